@@ -57,6 +57,26 @@ func runC12(o Opts) error {
 		c12replayCase(s, r.Case)
 		return s.Close()
 	}
+	// results are freshly allocated: growing or overwriting one result never shows in a later one (Go-side probe)
+	for _, in := range []string{"", "12", "2024010112345678", "0"} {
+		p1, err1 := bcd.Encode(in)
+		if err1 != nil || p1 == nil {
+			continue
+		}
+		want := append([]byte{}, (*p1)...)
+		*p1 = append(*p1, 0x99, 0x88)
+		for i := range *p1 {
+			(*p1)[i] ^= 0xff
+		}
+		p2, err2 := bcd.Encode(in)
+		if err2 != nil || p2 == nil || hexs(*p2) != hexs(want) {
+			got := "error"
+			if p2 != nil {
+				got = hexs(*p2)
+			}
+			s.Fail(map[string]any{"op": "enc-alias", "in_hex": hexs([]byte(in)), "want": hexs(want), "got": got}, "bcd.Encode returns storage shared between calls: changing one result changed a later one")
+		}
+	}
 	// corpus first
 	files, _ := filepath.Glob("corpus/C12/*.json")
 	for _, f := range files {
